@@ -1,3 +1,10 @@
 # property table for MANIFEST.json (edited by hand, consumed by tools/mkmanifest.py)
-CLAIMED = {}
-NOT_APPLICABLE = {("C%02d" % i): "check not built yet (work in progress; see DESIGN.md section 8 for the order of work)" for i in range(1, 21)}
+TB = "Trusted: Coq 8.16.1 kernel + vm_compute (no native_compute, no axioms declared; library axioms per theorem listed in the evidence); tools/translate.py; extraction (ExtrOcamlBasic) + OCaml 4.13.1; the C++ drivers and g++ 12.2. "
+CLAIMED = {
+ "C13": dict(category="proof",
+   text="All clauses of C13 are theorems over the model of utf8.hpp (decode_rune/encode_rune/count_runes against Table 3-7 of the Unicode Standard, every byte sequence and every code point, no bounds). The DFA tables and constants are regenerated from the header on every run, so the theorems are re-checked against the current text; the hand-modelled loops are tied by an exhaustive (<=2 bytes; thorough: <=3 bytes) plus structured/random correspondence with the compiled library, and the Table 3-7 oracle is evaluated on the implementation's answers on every run.",
+   design_ref="DESIGN.md 5.13",
+   level_note=TB + "Modelled rather than verified: the control flow of decode_rune/encode_rune/count_runes (Utf8Model.v), tied by differential testing.",
+   technique="Coq proof (finite DFA sweeps lifted by lemmas + arithmetic), model regenerated/tied by translation and exhaustive correspondence"),
+}
+NOT_APPLICABLE = {("C%02d" % i): "check not built yet (work in progress; see DESIGN.md section 8 for the order of work)" for i in range(1, 21) if ("C%02d" % i) not in CLAIMED}
